@@ -105,6 +105,8 @@ def judge_report(case) -> Verdict:
     lines = [o.line for o in acl.items]
     if len(lines) != len(recs):
         raise Invalid()
+    if any(not G.addr_is_native(r[s_], platform) for r in recs for s_ in ("src", "dst")):
+        raise Invalid()
     want = model_report(recs, lines, skip)
     before = acl.line
     got = acl.shading(skip)
@@ -138,6 +140,9 @@ def report_st(draw, tier):
             recs.append(draw(G.mutate_ace(draw(st.sampled_from(pool)), platform, kmax=3, established=False)))
         else:
             recs.append(draw(G.ace_st(platform, **kw)))
+    # native spelling: the report is keyed by rendered text, which is only stable for native input
+    # (a foreign spelling such as 0.0.0.0/0 on IOS converges after one re-parse, see C06)
+    recs = [G.to_native(r, platform) for r in recs]
     return {"aces": recs, "platform": platform, "skip": draw(st.sampled_from(A.SKIPS))}
 
 
